@@ -183,8 +183,7 @@ Proof.
   intros P A K N H S R.
   constructor; intros; auto; try congruence; try lia.
   - right. auto 10.
-  - rewrite S in *. discriminate.
-  - rewrite S in *. discriminate.
+  - left. congruence.
 Qed.
 
 Lemma dispatch_view s d reused s' o :
@@ -214,6 +213,19 @@ Proof.
     apply summary_send; auto; try congruence.
 Qed.
 
+Lemma add_close c r e s s' o d :
+  summary c r e s s' o -> pending (s_phase s) = true -> (o = [] \/ exists d' re, o = [OSend d' re]) ->
+  summary c r e s s' (OClosePconn d :: o).
+Proof.
+  intros SM P O.
+  assert (E1 : sends (OClosePconn d :: o) = sends o) by reflexivity.
+  assert (E2 : reforwards (OClosePconn d :: o) = reforwards o) by reflexivity.
+  destruct SM. constructor; try rewrite E1; try rewrite E2; auto.
+  intros N1 N2. exfalso. destruct (sm_nibble_set0 N1 N2) as [A B].
+  destruct O as [O|[d' [re O]]]; subst o; [|discriminate].
+  apply sm_active0 in A; [|reflexivity]. apply pending_not_active in P. congruence.
+Qed.
+
 Lemma hc_attempt_summary c r e s pi ok cl s' o :
   s_phase s = PhConnecting -> hc_attempt c r s pi ok cl = (s', o) -> summary c r e s s' o.
 Proof.
@@ -221,39 +233,31 @@ Proof.
   assert (P : pending (s_phase s) = true) by (rewrite PH; reflexivity).
   destruct (first_avail (s_paths s) 0) as [d|].
   2:{ inversion H; subst. apply summary_quiet; [apply same3_refl | left; reflexivity]. }
+  cbv zeta in H.
   set (s0 := set_paths s (set_avail (s_paths s) d false)) in *.
-  assert (S0 : same3 s s0) by (repeat split).
-  assert (P0 : s_phase s0 = s_phase s) by reflexivity.
-  destruct (andb (andb (s_hc_allow_pconn s0) pi) (s_hc_retriable s0)).
-  - eapply (note_connection_summary c r e s) in H; [destruct H as [H _]; exact H | exact P | reflexivity |].
-    repeat split.
+  change (s_hc_allow_pconn s0) with (s_hc_allow_pconn s) in H.
+  change (s_hc_retriable s0) with (s_hc_retriable s) in H.
+  assert (QUIET : forall x, same3 s x ->
+            summary c r e s (hc_check c r x) []).
+  { intros x SX. destruct (hc_check_view c r x) as [A B].
+    apply summary_pending; [|exact P]. split; [eapply same3_trans; eassumption | exact B]. }
+  destruct (s_hc_allow_pconn s && pi) eqn:POP; simpl in H.
+  - destruct (s_hc_retriable s).
+    + eapply (note_connection_summary c r e s) in H; [destruct H as [H _]; exact H | exact P | reflexivity | repeat split].
+    + destruct ok.
+      * match type of H with context [note_connection ?a ?b ?x ?dd ?re ?c2] =>
+          destruct (note_connection a b x dd re c2) as [s2 o2] eqn:NC end.
+        inversion H; subst; clear H.
+        eapply (note_connection_summary c r e s) in NC; [| exact P | reflexivity | repeat split].
+        destruct NC as [SM O2]. apply add_close; auto.
+        destruct O2 as [O2|O2]; [left; exact O2 | right; eauto].
+      * inversion H; subst; clear H. apply add_close; auto. apply QUIET. repeat split.
   - destruct ok.
-    + destruct (note_connection c r (set_ntries s0 (s_ntries s0 + 1)) d false cl) as [s2 o2] eqn:NC.
-      inversion H; subst; clear H.
-      eapply (note_connection_summary c r e s) in NC; [| exact P | reflexivity | repeat split].
-      destruct NC as [SM O2].
-      destruct (andb (s_hc_allow_pconn s0) pi); [|exact SM].
-      (* an idle pconn was closed first: same summary with one more non-send output *)
-      destruct O2 as [O2|O2]; subst o2; simpl.
-      * destruct SM. constructor; auto.
-        intros N1 N2. exfalso.
-        destruct (sm_nibble_set0 N1 N2) as [A _].
-        apply sm_active0 in A; [|reflexivity]. apply pending_not_active in P. congruence.
-      * destruct SM. constructor; auto.
-        intros N1 N2. exfalso. destruct (sm_nibble_set0 N1 N2) as [_ B]. discriminate.
-    + inversion H; subst; clear H.
-      match goal with |- summary _ _ _ _ (hc_check c r ?x) _ =>
-        destruct (hc_check_view c r x) as [A B]; assert (SX : same3 s x) by (repeat split) end.
-      assert (Q : quiet_end s (hc_check c r (set_hc (set_ntries s0 (s_ntries s0 + 1))
-                     (s_hc_retriable (set_ntries s0 (s_ntries s0 + 1)))
-                     (s_hc_allow_pconn (set_ntries s0 (s_ntries s0 + 1))) (Some ErrConnectFail)))).
-      { split; [eapply same3_trans; eassumption | exact B]. }
-      destruct (andb (s_hc_allow_pconn s0) pi).
-      * pose proof (summary_pending c r e _ _ Q P) as SM.
-        destruct SM. constructor; auto.
-        intros N1 N2. exfalso. destruct (sm_nibble_set0 N1 N2) as [A' _].
-        apply sm_active0 in A'; [|reflexivity]. apply pending_not_active in P. congruence.
-      * apply summary_pending; assumption.
+    + match type of H with context [note_connection ?a ?b ?x ?dd ?re ?c2] =>
+          destruct (note_connection a b x dd re c2) as [s2 o2] eqn:NC end.
+      inversion H; subst; clear H. simpl.
+      eapply (note_connection_summary c r e s) in NC; [destruct NC as [SM _]; exact SM | exact P | reflexivity | repeat split].
+    + inversion H; subst; clear H. apply QUIET. repeat split.
 Qed.
 
 Lemma step_summary c r s e s' o : step c r s e = (s', o) -> summary c r e s s' o.
@@ -262,15 +266,15 @@ Proof.
   destruct (s_phase s) eqn:PH.
   (* ---- PhIdle ---- *)
   - assert (P : pending (s_phase s) = true) by (rewrite PH; reflexivity).
-    destruct e; try (inversion H; subst; apply summary_quiet; [apply same3_refl | left; reflexivity]).
+    destruct e; try (inversion H; subst; apply summary_quiet; [apply same3_refl | left; simpl; congruence]).
     + (* EvNewDest *)
       destruct (negb (s_subscribed s)); inversion H; subst; clear H;
-        [apply summary_quiet; [apply same3_refl | left; reflexivity]|].
+        [apply summary_quiet; [apply same3_refl | left; simpl; congruence]|].
       apply summary_pending; [|exact P].
       match goal with |- quiet_end s (use_destinations c r ?x) => destruct (use_destinations_view c r x) as [A B] end.
       split; [|exact B]. eapply same3_trans; [|exact A]. repeat split.
     + (* EvDestsEnd *)
-      destruct (negb (s_subscribed s)); [inversion H; subst; apply summary_quiet; [apply same3_refl | left; reflexivity]|].
+      destruct (negb (s_subscribed s)); [inversion H; subst; apply summary_quiet; [apply same3_refl | left; simpl; congruence]|].
       simpl in H.
       destruct (negb (s_found s)); inversion H; subst; clear H; apply summary_pending; try exact P; unfold finish.
       * match goal with |- quiet_end s (set_phase (fail ?x ?er) _) => destruct (fail_view x er) as [_ [A [B C]]] end.
@@ -280,7 +284,7 @@ Proof.
         match goal with |- same3 s (set_phase (fail ?x ?er) _) => destruct (fail_view x er) as [_ [A [B C]]] end.
         unfold same3 in *; simpl in *; repeat split; assumption.
     + (* EvStartPinned *)
-      destruct (orb (s_found s) (negb (s_subscribed s))); [inversion H; subst; apply summary_quiet; [apply same3_refl | left; reflexivity]|].
+      destruct (orb (s_found s) (negb (s_subscribed s))); [inversion H; subst; apply summary_quiet; [apply same3_refl | left; simpl; congruence]|].
       destruct (negb ok).
       * inversion H; subst; clear H. apply summary_pending; [|exact P]. unfold finish.
         match goal with |- quiet_end s (set_phase (fail ?x ?er) _) => destruct (fail_view x er) as [_ [A [B C]]] end.
@@ -293,10 +297,10 @@ Proof.
     + inversion H; subst. apply summary_quiet; [repeat split | left; simpl; congruence].
   (* ---- PhConnecting ---- *)
   - assert (P : pending (s_phase s) = true) by (rewrite PH; reflexivity).
-    destruct e; try (inversion H; subst; apply summary_quiet; [apply same3_refl | left; reflexivity]).
+    destruct e; try (inversion H; subst; apply summary_quiet; [apply same3_refl | left; simpl; congruence]).
     + destruct (negb (s_subscribed s)); inversion H; subst; clear H;
-        apply summary_quiet; try apply same3_refl; try (left; reflexivity). repeat split.
-    + destruct (negb (s_subscribed s)); [inversion H; subst; apply summary_quiet; [apply same3_refl | left; reflexivity]|].
+        apply summary_quiet; try apply same3_refl; try (left; simpl; congruence). repeat split.
+    + destruct (negb (s_subscribed s)); [inversion H; subst; apply summary_quiet; [apply same3_refl | left; simpl; congruence]|].
       simpl in H.
       destruct (negb (s_found s)); inversion H; subst; clear H; apply summary_pending; try exact P.
       * unfold finish.
@@ -310,10 +314,10 @@ Proof.
     + inversion H; subst. apply summary_quiet; [repeat split | left; simpl; congruence].
   (* ---- PhSent ---- *)
   - assert (P : active (s_phase s) = true) by (rewrite PH; reflexivity).
-    destruct e; try (inversion H; subst; apply summary_quiet; [apply same3_refl | left; reflexivity]).
+    destruct e; try (inversion H; subst; apply summary_quiet; [apply same3_refl | left; simpl; congruence]).
     + destruct (negb (s_subscribed s)); inversion H; subst; clear H;
-        apply summary_quiet; try apply same3_refl; try (left; reflexivity). repeat split.
-    + destruct (negb (s_subscribed s)); [inversion H; subst; apply summary_quiet; [apply same3_refl | left; reflexivity]|].
+        apply summary_quiet; try apply same3_refl; try (left; simpl; congruence). repeat split.
+    + destruct (negb (s_subscribed s)); [inversion H; subst; apply summary_quiet; [apply same3_refl | left; simpl; congruence]|].
       simpl in H.
       destruct (negb (s_found s)); inversion H; subst; clear H.
       * apply summary_quiet; [|right; reflexivity]. unfold finish.
@@ -321,7 +325,7 @@ Proof.
         unfold same3 in *; simpl in *; repeat split; assumption.
       * apply summary_quiet; [repeat split | left; simpl; congruence].
     + (* EvBodyConsumed *)
-      destruct (r_body r); inversion H; subst; clear H; [|apply summary_quiet; [apply same3_refl | left; reflexivity]].
+      destruct (r_body r); inversion H; subst; clear H; [|apply summary_quiet; [apply same3_refl | left; simpl; congruence]].
       constructor; simpl; intros; auto; try congruence; try (left; congruence).
       * rewrite PH. auto.
     + (* EvFail *)
@@ -339,23 +343,23 @@ Proof.
       inversion H; subst; clear H.
       constructor; simpl; intros; auto; try congruence; try (left; congruence).
       * rewrite PH; reflexivity.
-      * destruct (s_hdr_wait s); [left; reflexivity|]. simpl in H. right. exists status. auto.
+      * destruct (s_hdr_wait s); [left; simpl; congruence|]. simpl in H. right. exists status. auto.
     + inversion H; subst. apply summary_quiet; [repeat split | right; reflexivity].
     + inversion H; subst. apply summary_quiet; [repeat split | left; simpl; congruence].
     + inversion H; subst. apply summary_quiet; [repeat split | left; simpl; congruence].
   (* ---- PhGotHeaders ---- *)
   - assert (P : active (s_phase s) = true) by (rewrite PH; reflexivity).
-    destruct e; try (inversion H; subst; apply summary_quiet; [apply same3_refl | left; reflexivity]).
+    destruct e; try (inversion H; subst; apply summary_quiet; [apply same3_refl | left; simpl; congruence]).
     + destruct (negb (s_subscribed s)); inversion H; subst; clear H;
-        apply summary_quiet; try apply same3_refl; try (left; reflexivity). repeat split.
-    + destruct (negb (s_subscribed s)); [inversion H; subst; apply summary_quiet; [apply same3_refl | left; reflexivity]|].
+        apply summary_quiet; try apply same3_refl; try (left; simpl; congruence). repeat split.
+    + destruct (negb (s_subscribed s)); [inversion H; subst; apply summary_quiet; [apply same3_refl | left; simpl; congruence]|].
       simpl in H.
       destruct (negb (s_found s)); inversion H; subst; clear H.
       * apply summary_quiet; [|right; reflexivity]. unfold finish.
         match goal with |- same3 s (set_phase (fail ?x ?er) _) => destruct (fail_view x er) as [_ [A [B C]]] end.
         unfold same3 in *; simpl in *; repeat split; assumption.
       * apply summary_quiet; [repeat split | left; simpl; congruence].
-    + destruct (r_body r); inversion H; subst; clear H; [|apply summary_quiet; [apply same3_refl | left; reflexivity]].
+    + destruct (r_body r); inversion H; subst; clear H; [|apply summary_quiet; [apply same3_refl | left; simpl; congruence]].
       constructor; simpl; intros; auto; try congruence; try (left; congruence).
       * rewrite PH. auto.
     + inversion H; subst; clear H.
@@ -393,5 +397,5 @@ Proof.
     + inversion H; subst. apply summary_quiet; [repeat split | left; simpl; congruence].
     + inversion H; subst. apply summary_quiet; [repeat split | left; simpl; congruence].
   (* ---- PhDone ---- *)
-  - inversion H; subst. apply summary_quiet; [apply same3_refl | left; reflexivity].
+  - inversion H; subst. apply summary_quiet; [apply same3_refl | left; simpl; congruence].
 Qed.
